@@ -292,11 +292,17 @@ def rule_SS3(ctx, rep):
     # the evaluation point ranges over 1..m, one per party
     binders, _g = routes._context(fn, cl[0], pm)
     xb = [b for b in binders if xv in b.names()]
+    pt = Lin.sym(xv)       # the evaluation point as a linear form over the loop variable of the party loop
+    if not xb:
+        # the point is a temporary computed from the loop variable (x = i + 1)
+        pt = to_lin(_xp_arith(fn, ast.Name(id=xv, ctx=ast.Load()), body[0], pm), opaque=False)
+        if pt is not None and len(pt.syms()) == 1 and pt.coef(next(iter(pt.syms()))) == 1:
+            xb = [b for b in binders if next(iter(pt.syms())) in b.names() and b.kind == 'range']
     pl = xb[-1].node if xb else None
     rows_tbl = None        # name of the table whose rows are enumerated together with the point
     pts_ok = False
     if xb and xb[-1].kind == 'range':
-        pts_ok = xb[-1].lo == Lin(1) and xb[-1].hi == Lin.sym(mp)
+        pts_ok = xb[-1].lo + pt.c == Lin(1) and xb[-1].hi + pt.c == Lin.sym(mp)
     elif xb and xb[-1].kind == 'enum' and xb[-1].pos == xv and xb[-1].start == 1 and isinstance(xb[-1].src, ast.Name):
         # enumerate(<table with one row per party>, start=1)
         tbl = astq.sole_definition(fn.node, xb[-1].src.id)
@@ -324,8 +330,8 @@ def rule_SS3(ctx, rep):
             val = val.left
         row_ok = False
         if isinstance(tgt.value, ast.Subscript):
-            rl = to_lin(tgt.value.slice, opaque=False)
-            row_ok = rl is not None and rl == Lin.sym(xv) - 1
+            rl = to_lin(_xp_arith(fn, tgt.value.slice, stores[0], pm), opaque=False)
+            row_ok = rl is not None and rl == pt - 1
         elif rows_tbl is not None and isinstance(tgt.value, ast.Name) and tgt.value.id == rows_tbl[1]:
             row_ok = True          # the row enumerated together with its point (start=1)
         sec = None
@@ -429,6 +435,59 @@ def _plus_one_party(e):
     return None
 
 
+def _f_S_points(fs):
+    """None when the interpolation points of thresha._f_S_i are exactly (0, [1]) and (j+1, [0]) for the parties j in 0..m-1 outside S,
+    evaluated at i+1; otherwise what is different.  Decided on the elements flowing into the point list (display, comprehension,
+    concatenation, append loop alike), their binders and their path conditions."""
+    from . import routes, cond, rules_rt
+    pm = parents(fs.node)
+    mpar, ipar, Spar = fs.params[1], fs.params[2], fs.params[3]
+    rc = calls_named(fs.node, 'recombine')
+    if len(rc) != 1 or len(rc[0].args) < 3:
+        return 'no single call recombine(field, points, x)'
+    xr = to_lin(_xp_arith(fs, rc[0].args[2], rc[0], pm), opaque=False)
+    if xr is None or xr != Lin.sym(ipar) + 1:
+        return f'evaluated at {norm(rc[0].args[2])}'
+    elts, complete = rules_rt.list_elements(fs, rc[0].args[1], rc[0], pm)
+    if not complete or not elts:
+        return 'the point list is not understood'
+    fixed = party = 0
+    for e in elts:
+        if not (isinstance(e, ast.Tuple) and len(e.elts) == 2):
+            return f'point {norm(e)} is not a pair'
+        binders, _g = routes._context(fs, e, pm)
+        f = cond.context(fs, e, pm)
+        x = to_lin(_xp_arith(fs, e.elts[0], e, pm), opaque=False)
+        val = norm(routes.xp(fs, e.elts[1], e, pm))
+        if not binders:
+            if x == Lin(0) and val == "[1]" and cond.equivalent(f, cond.TRUE):
+                fixed += 1
+                continue
+            return f'fixed point {norm(e)}'
+        if len(binders) != 1 or binders[0].kind != 'range' or x is None:
+            return f'point {norm(e)} is not enumerated over the parties'
+        b = binders[0]
+        k = x - Lin.sym(b.var)
+        if not k.is_const() or b.lo + k != Lin(1) or b.hi + k != Lin.sym(mpar) or val != '[0]':
+            return f'zero points {norm(e)} for {b}'
+        # the filter: exactly the parties outside S, party = x - 1
+        ok = False
+        if f[0] == 'not' and f[1][0] == 'atom':
+            try:
+                a = ast.parse(f[1][1], mode='eval').body
+            except SyntaxError:
+                a = None
+            if isinstance(a, ast.Compare) and len(a.ops) == 1 and isinstance(a.ops[0], ast.In) and norm(a.comparators[0]) == Spar:
+                l = to_lin(a.left, opaque=False)
+                ok = l is not None and l == x - 1
+        if not ok:
+            return f'zero points are taken where {cond.fmt(f)}'
+        party += 1
+    if fixed != 1 or party != 1:
+        return f'{fixed} fixed and {party} enumerated point sources'
+    return None
+
+
 def rule_SS4(ctx, rep, scope=None):
     """x-coordinate convention: party i <-> evaluation point i+1, everywhere."""
     model = ctx.model
@@ -438,26 +497,12 @@ def rule_SS4(ctx, rep, scope=None):
     n += rules_rt.rule_SS4_points(ctx, rep)
     # (b) thresha conventions
     fs = model.func('thresha::_f_S_i')
-    comp = [c for c in iter_nodes(fs.node) if isinstance(c, ast.ListComp) and isinstance(c.elt, ast.Tuple)]
-    rc = calls_named(fs.node, 'recombine')
-    good = False
-    if len(comp) == 1 and len(rc) == 1:
-        P = _plus_one_party(comp[0].elt.elts[0])
-        g = comp[0].generators[0]
-        rb = _range_bounds(g.iter)
-        mpar, ipar, Spar = fs.params[1], fs.params[2], fs.params[3]
-        xr = rc[0].args[2] if len(rc[0].args) > 2 else None
-        Pi = _plus_one_party(xr) if xr is not None else None
-        good = P is not None and norm(P) == norm(g.target) and rb and rb[0] == Lin(0) and rb[1] == Lin.sym(mpar) - 1 \
-            and len(g.ifs) == 1 and norm(g.ifs[0]) == f'{norm(g.target)} not in {Spar}' and Pi is not None and norm(Pi) == ipar
-        # the fixed point (0, 1)
-        lst = [b for b in ast.walk(fs.node) if isinstance(b, ast.List) and b.elts and isinstance(b.elts[0], ast.Tuple)]
-        good = good and any(const_int(b.elts[0].elts[0]) == 0 and norm(b.elts[0].elts[1]) == '[1]' for b in lst)
     n += 1
-    if good:
-        rep.ok('SS4', fs, comp[0], 'f_S is 1 at 0, 0 at x = j+1 for parties j outside S, evaluated at x = i+1 for party i')
+    why = _f_S_points(fs)
+    if why is None:
+        rep.ok('SS4', fs, 'points of f_S', 'f_S is 1 at 0, 0 at x = j+1 for parties j outside S, evaluated at x = i+1 for party i', fs.node)
     else:
-        rep.bad('SS4', fs, fs.qualname, 'f_S is not built from the points (0,1) and (j+1,0) for j outside S and evaluated at i+1: pseudorandom shares '
+        rep.bad('SS4', fs, fs.qualname, f'f_S is not built from the points (0,1) and (j+1,0) for j outside S and evaluated at i+1 ({why}): pseudorandom shares '
                 'of different parties do not lie on one polynomial', fs.node)
     for q in ('pseudorandom_share_zero', 'np_pseudorandom_share_0'):
         fz = model.func('thresha::' + q)
@@ -628,6 +673,11 @@ def _row_aliasing(ctx, rep, rule, modules=('thresha',)):
     return n
 
 
+def rules_rt_elements(fn, e, use, pm):
+    from . import rules_rt
+    return rules_rt.list_elements(fn, e, use, pm)
+
+
 def rule_SS7(ctx, rep):
     """Lagrange recombination vector: numerator and denominator factors are oriented alike, taken over
     all j != i; list and array recombination use the same vector with the same default point."""
@@ -636,59 +686,73 @@ def rule_SS7(ctx, rep):
     fn = model.func('thresha::_recombination_vector')
     pm = parents(fn.node)
     fieldp, xsp, xrp = fn.params[:3]
-    outer = [l for l in fn.node.body if isinstance(l, ast.For)]
-    if len(outer) != 1:
-        raise AnalysisError('SS7: outer loop of _recombination_vector not found')
-    ol = outer[0]
-    inner = [l for l in iter_nodes(ol) if isinstance(l, ast.For) and l is not ol]
-    if len(inner) != 1:
-        raise AnalysisError('SS7: inner loop of _recombination_vector not found')
-    il = inner[0]
-    if not (isinstance(ol.iter, ast.Call) and attr_tail(ol.iter.func) == 'enumerate' and isinstance(il.iter, ast.Call) and attr_tail(il.iter.func) == 'enumerate'
-            and norm(ol.iter.args[0]) == norm(il.iter.args[0])):
+    from . import routes, cond
+    upd = [s for s in iter_nodes(fn.node) if isinstance(s, ast.AugAssign) and isinstance(s.op, ast.Mult) and isinstance(s.target, ast.Name)]
+    if len(upd) != 2:
+        raise AnalysisError('SS7: numerator/denominator updates of _recombination_vector not found')
+    ctxs = [routes._context(fn, u, pm)[0] for u in upd]
+    if any(len(bs) != 2 or any(b.kind != 'enum' or b.start != 0 for b in bs) for bs in ctxs) or ctxs[0][0].node is not ctxs[1][0].node \
+            or ctxs[0][1].node is not ctxs[1][1].node:
+        rep.bad('SS7', fn, upd[0], 'the Lagrange products are not accumulated in a double enumeration (i, x_i), (j, x_j) of the x-coordinates')
+        return
+    ob, ib = ctxs[0]
+    ol, il = ob.node, ib.node
+    if cnorm(routes.xp(fn, ob.src, ol, pm)) != cnorm(routes.xp(fn, ib.src, il, pm)):
         rep.bad('SS7', fn, il, 'inner and outer loop do not range over the same x-coordinates')
         return
-    oi, ox = [norm(x) for x in ol.target.elts]
-    ii, ix = [norm(x) for x in il.target.elts]
-    upd = [s for s in iter_nodes(il) if isinstance(s, ast.AugAssign) and isinstance(s.op, ast.Mult)]
-    if len(upd) != 2:
-        raise AnalysisError('SS7: numerator/denominator updates not found')
-    guards = {norm(i.test) for u in upd for i, br in enclosing_ifs(u, pm, stop=il) if br == 'body'}
-    if guards <= {f'{oi} != {ii}', f'{ii} != {oi}'} and guards:
+    # the coordinates are the field values of the given points
+    elts, complete = rules_rt_elements(fn, ob.src, ol, pm)
+    srcs = []
+    for e in elts:
+        bs, _g = routes._context(fn, e, pm)
+        sb = [b for b in bs if b.kind in ('iter', 'enum')]
+        if norm(routes.xp(fn, e, e, pm)) in tuple(f'{fieldp}({b.elem}).value' for b in sb) and len(bs) == 1 and norm(sb[0].src) == xsp \
+                and cond.equivalent(cond.context(fn, e, pm), cond.TRUE):
+            srcs.append(e)
+    if complete and len(elts) == 1 and len(srcs) == 1:
+        rep.ok('SS7', fn, srcs[0], 'the coordinates are the field values of all given x-coordinates, in their order')
+    else:
+        rep.bad('SS7', fn, ol, f'the enumerated coordinates are not [{fieldp}(x).value for x in {xsp}]: a point is dropped, repeated or not reduced into the field')
+    oi, ox, ii, ix = ob.pos, ob.elem, ib.pos, ib.elem
+    gs = [cond.context(fn, u, pm, stop=ol) for u in upd]
+    want = {f'{oi} == {ii}', f'{ii} == {oi}'}
+    if all(g[0] == 'not' and g[1][0] == 'atom' and g[1][1] in want for g in gs):
         rep.ok('SS7', fn, upd[0], 'product over all j != i')
     else:
-        rep.bad('SS7', fn, il, f'the Lagrange products are not taken over exactly the j != i (guards: {sorted(guards)})')
+        rep.bad('SS7', fn, il, f'the Lagrange products are not taken over exactly the j != i (conditions: {sorted(cond.fmt(g) for g in gs)})')
     # which is numerator / denominator: by the division at the end
     divs = [d for d in ast.walk(ol) if isinstance(d, ast.BinOp) and isinstance(d.op, ast.Div)]
     if len(divs) != 1:
         raise AnalysisError('SS7: final division not found')
-    num, den = norm(divs[0].left), norm(divs[0].right)
+    num, den = norm(routes.xp(fn, divs[0].left, divs[0], pm)), norm(routes.xp(fn, divs[0].right, divs[0], pm))
     fac = {norm(u.target): u.value for u in upd}
-    if set(fac) != {num, den}:
-        rep.bad('SS7', fn, divs[0], 'the quotient is not numerator product / denominator product')
+    if set(fac) != {num, den} or any(x is divs[0] for x in ast.walk(il)):
+        rep.bad('SS7', fn, divs[0], 'the quotient is not numerator product / denominator product, taken once per i after the products are complete')
         return
     fn_, fd_ = fac[num], fac[den]
 
-    def orient(e, a):
+    def orient(e, a, use):
         """+1 if e == a - x_j, -1 if e == x_j - a, else 0."""
+        e = _xp_arith(fn, e, use, pm)
         if isinstance(e, ast.BinOp) and isinstance(e.op, ast.Sub):
             if norm(e.left) == a and norm(e.right) == ix:
                 return 1
             if norm(e.left) == ix and norm(e.right) == a:
                 return -1
         return 0
-    xr_names = {xrp}
-    for st, v, how in definitions(fn.node, xrp):
-        pass
-    on, od = orient(fn_, xrp), orient(fd_, ox)
+    on, od = orient(fn_, xrp, upd[0]), orient(fd_, ox, upd[1])
+    if num != norm(upd[0].target):
+        on, od = orient(fn_, xrp, upd[1]), orient(fd_, ox, upd[0])
     if on != 0 and on == od:
         rep.ok('SS7', fn, divs[0], 'basis polynomial prod_j (x_r - x_j)/(x_i - x_j) (both factors oriented alike)')
     else:
         rep.bad('SS7', fn, upd[1], f'numerator factor `{norm(fn_)}` and denominator factor `{norm(fd_)}` are not of the form (x_r - x_j) and (x_i - x_j) '
                 'with the same orientation: for an even number of points every Lagrange coefficient changes sign')
-    # start values 1, result appended as value
-    inits = [s for s in ol.body if isinstance(s, ast.Assign) and norm(s.targets[0]) in (num, den)]
-    if len(inits) == 2 and all(isinstance(s.value, ast.Call) and const_int(s.value.args[0]) == 1 for s in inits):
+    # start values 1 for every i: (re)defined in the outer loop, outside the inner one
+    inits = [st for nm in (num, den) for st, v, how in definitions(fn.node, nm) if how == 'assign' and any(x is st for x in ast.walk(ol))
+             and not any(x is st for x in ast.walk(il)) and astq.position(st) < astq.position(il)
+             and isinstance(v, ast.Call) and norm(v.func) == fieldp and len(v.args) == 1 and const_int(v.args[0]) == 1]
+    if len(inits) == 2:
         rep.ok('SS7', fn, inits[0], 'products start at 1 for every i')
     else:
         rep.bad('SS7', fn, ol, 'numerator/denominator products are not re-initialised to 1 for every i')
